@@ -96,6 +96,15 @@ Inductive case :=
       the context before, and original and copy afterwards. *)
 | CCopy (q0 : msg) (pre : option msg) (on_copy : bool) (es_resp es_q : list eopt) (ttl : N) (m2 : option msg)
         (before orig copy : cobs)
+  (** The real servers of pkg/server in front of EntryHandler over a stateless
+      program (no cache, no selector): every query is sent over a transport
+      [tr] — 0 ServeUDP on a loopback socket, 1 ServeTCP on a connection of its
+      own, 2 ServeTCP pipelined with others on one connection, 3 / 4 the DoH
+      handler behind a loopback HTTP server by GET / POST — and the reply bytes
+      that came back are re-parsed ([None]: nothing within the waiting time /
+      connection closed / HTTP error). *)
+| CNet (xs : list xdesc) (ws : list wdesc) (scripts : list (list rtmpl)) (prog : list tseq) (ns : list nobs)
+with nobs := NObs (tr : N) (q : msg) (reply : option msg) (rlen : N)
 with cobs := CObs (q : msg) (co : option opt) (r : option msg) (ro uo : option opt).
 
 (** * Model side *)
@@ -336,6 +345,18 @@ Definition agree (c : case) : bool :=
     end
   | CFun op arg m out aux =>
     let '(o, a) := fun_model op arg m in msg_eqb o out && (a =? aux)
+  | CNet xs ws scripts prog ns =>
+    (* the transport is transparent: Handle on the unpacked query, FromUDP for transport 0 *)
+    match build_prog xs ws prog with
+    | Some (reg, rs) =>
+      forallb (fun o => match o with
+                        | NObs tr q reply rlen =>
+                          let udp := tr =? 0 in
+                          let '(_, r0) := handle jtruncate jpacks (jentry xs ws scripts reg rs) empty_world q udp None in
+                          reply_agrees udp (valid_udp_size (client_opt q)) r0 reply rlen
+                        end) ns
+    | None => false
+    end
   | CCopy q0 pre on_copy es_resp es_q ttl m2 before orig copy =>
     let '(b, t) := copy_model q0 pre es_resp es_q ttl m2 in
     cobs_eqb b before
@@ -463,6 +484,19 @@ Definition spec15 (c : case) : bool :=
   match c with
   | CRun xs ws scripts prog qs => forallb (spec_query ws scripts) qs
   | CFun op arg m out aux => spec_fun op m out aux
+  | CNet xs ws scripts prog ns =>
+    forallb (fun o => match o with
+                      | NObs tr q (Some r) rlen =>
+                        no_opt (m_answer r) && no_opt (m_ns r)
+                        && match client_opt q, opts_of (m_extra r) with
+                           | None, [] => true
+                           | Some co, [o] =>
+                             Bool.eqb (o_do o) (o_do co) && (o_udp o =? edns0_size) && (o_ver o =? 0)
+                             && forallb (fun e => mem_eopt e (opts_upstream scripts) && forwards_code ws (fst e)) (o_opts o)
+                           | _, _ => false
+                           end
+                      | _ => true
+                      end) ns
   | CCopy q0 pre on_copy es_resp es_q ttl m2 before orig copy =>
     (* the one that was not written to is what it was; the other has the appended options *)
     let untouched := if on_copy then orig else copy in
@@ -498,6 +532,7 @@ Definition nontrivial15 (c : case) : bool :=
                          | _ => false
                          end) qs
   | CFun op arg m out aux => negb (no_opt (all_rrs m))
+  | CNet xs ws scripts prog ns => false
   | CCopy q0 pre on_copy es_resp es_q ttl m2 before orig copy =>
     match before with CObs _ _ _ (Some _) _ => (0 <? length es_resp)%nat | _ => false end
   end.
